@@ -798,8 +798,14 @@ func genProg(r *Rng) *prog {
 // one function in the text only (arity mismatch).
 func (p *prog) render(alt map[string]string) {
 	var b strings.Builder
-	b.WriteString(progHeader)
-	line := strings.Count(progHeader, "\n") + 1
+	// every other program starts with a licence header and a build constraint: the file's first
+	// declaration is not at byte 0
+	hdr := progHeader
+	if p.rng != nil && p.rng.Bool() {
+		hdr = "// Copyright 2024 The Authors. All rights reserved.\n// Use of this source code is governed by a licence that can be found in the LICENSE file.\n\n//go:build !never\n\n// Command prog crashes on purpose.\n" + progHeader
+	}
+	b.WriteString(hdr)
+	line := strings.Count(hdr, "\n") + 1
 	w := func(s string) { b.WriteString(s); line += strings.Count(s, "\n") }
 	callExpr := func(f *progFunc) string {
 		var ex []string
